@@ -135,11 +135,11 @@ var propSpecs = []propSpec{
 	{
 		id: "C11",
 		runs: []runSpec{
-			{dir: "mux", entry: "ZZC11", quick: []int{10001, 10101, 10203, 10303, 11001, 11101, 11203, 11303, 12001, 12101, 12203, 12303, 13001, 13101, 13203, 13303, 14001, 14101, 14203, 14303},
-				thorough: []int{10002, 10102, 10205, 10305, 11002, 11102, 11205, 11305, 12002, 12102, 12205, 12305, 13002, 13102, 13205, 13305, 14002, 14102, 14205, 14305}},
+			{dir: "mux", entry: "ZZC11", quick: []int{10001, 10101, 10203, 10303, 11001, 11101, 11203, 11303, 12001, 12101, 12203, 12303, 13001, 13101, 13203, 13303, 14001, 14101, 14203, 14303, 15001, 16001},
+				thorough: []int{10002, 10102, 10205, 10305, 11002, 11102, 11205, 11305, 12002, 12102, 12205, 12305, 13002, 13102, 13205, 13305, 14002, 14102, 14205, 14305, 15002, 16002}},
 		},
 		covers:  []string{"deny", "404-405", "preflight-unserved-method", "preflight-disallowed-header"},
-		bounds:  "5 origin lists x 4 allow-header lists x 3 (exposed, credentials, max-age) settings with max-age a symbolic int in [1,99999]; requests: GET/HEAD/POST/OPTIONS/empty method on a live route, OPTIONS *, an unknown path; Origin absent or every string of <= 2 bytes (so it can equal a configured origin); Access-Control-Request-Method absent / GET / PUT / every string of <= 3 bytes; Access-Control-Request-Headers absent, 4 fixed spellings (lower case, lists, mixed case with spaces) and every string of <= 3 visible-ASCII/HTAB bytes (<= 1 for the configurations without an allow-list); reference: own list parser (split on ',', trim OWS, ASCII case-insensitive)",
+		bounds:  "WithCORS with 5 origin lists x 4 allow-header lists, plus WithAllowedCORS and WithDenyCORS, x 3 (exposed, credentials, max-age) settings with max-age a symbolic int in [1,99999]; requests: GET/HEAD/POST/OPTIONS/empty method on a live route, OPTIONS *, an unknown path; Origin absent or every string of <= 2 bytes (so it can equal a configured origin); Access-Control-Request-Method absent / GET / PUT / every string of <= 3 bytes; Access-Control-Request-Headers absent, 4 fixed spellings (lower case, lists, mixed case with spaces) and every string of <= 3 visible-ASCII/HTAB bytes (<= 1 for the configurations without an allow-list); reference: own list parser (split on ',', trim OWS, ASCII case-insensitive)",
 		boundsT: "free Access-Control-Request-Headers <= 5 bytes",
 		outside: "header values with bytes outside visible ASCII / HTAB; longer free header values; origins longer than 2 bytes",
 		stubs:   append(append([]string{}, stdStubs...), "strings.TrimSpace: byte-wise model exact for ASCII; strconv.Itoa on the symbolic max-age: digit-wise model"),
@@ -147,8 +147,8 @@ var propSpecs = []propSpec{
 	{
 		id: "C12",
 		runs: []runSpec{
-			{dir: "mux", entry: "ZZC11", quick: []int{21001, 21101, 21203, 21303, 22001, 22101, 22203, 22303, 23001, 23101, 23203, 23303, 24001, 24101, 24203, 24303},
-				thorough: []int{21002, 21102, 21205, 21305, 22002, 22102, 22205, 22305, 23002, 23102, 23205, 23305, 24002, 24102, 24205, 24305}},
+			{dir: "mux", entry: "ZZC11", quick: []int{21001, 21101, 21203, 21303, 22001, 22101, 22203, 22303, 23001, 23101, 23203, 23303, 24001, 24101, 24203, 24303, 25001},
+				thorough: []int{21002, 21102, 21205, 21305, 22002, 22102, 22205, 22305, 23002, 23102, 23205, 23305, 24002, 24102, 24205, 24305, 25002}},
 		},
 		covers:  []string{"grant", "preflight-grant", "not-a-preflight"},
 		bounds:  "as C11 restricted to the 4 non-empty origin lists; asserted: Allow-Origin/Credentials/Expose-Headers exactly as configured for allowed origins, Allow-Methods = the route's Allow set, Allow-Headers and Max-Age (symbolic int, compared through strconv.Itoa) on accepted preflights only, Vary naming Origin / Access-Control-Request-Method / Access-Control-Request-Headers",
@@ -217,9 +217,10 @@ var propSpecs = []propSpec{
 		id: "C19",
 		runs: []runSpec{
 			{dir: "mux", entry: "ZZC19", quick: []int{13, 23}, thorough: []int{13, 24, 34}},
+			{dir: "mux", entry: "ZZC19Verbs", quick: []int{2}, thorough: []int{3}},
 		},
-		covers:  []string{"program", "facade-route-reached"},
-		bounds:  "every program of <= 2 facade calls from 10 (Prefix with middlewares, empty Prefix, a Prefix ending inside a {..} token, nested Prefix.Prefix + Any, Resource Get/Delete, Prefix.Resource Put, Prefix.Resource.Remove, Prefix.Clean, Resource.Clean, nested Prefix.Remove with a method list) run through the facades on one router and desugared into plain Router calls on a second one; compared: Routes(), the table model, the same symbolic request (path <= 3 bytes x 6 methods: handler, pattern, parameters, middleware chain, status, Allow), Prefix.URL / Resource.URL / nested Prefix.URL vs Router.URL in both modes with a symbolic value",
+		covers:  []string{"program", "facade-route-reached", "verbs"},
+		bounds:  "every program of <= 2 facade calls from 10 (Prefix with middlewares, empty Prefix, a Prefix ending inside a {..} token, nested Prefix.Prefix + Any, Resource Get/Delete, Prefix.Resource Put, Prefix.Resource.Remove, Prefix.Clean, Resource.Clean, nested Prefix.Remove with a method list) run through the facades on one router and desugared into plain Router calls on a second one; compared: Routes(), the table model, the same symbolic request (path <= 3 bytes x 6 methods: handler, pattern, parameters, middleware chain, status, Allow), Prefix.URL / Resource.URL / nested Prefix.URL vs Router.URL in both modes with a symbolic value; every verb shorthand (Get/Post/Delete/Put/Patch/Any/Handle) of Router, Prefix and Resource against the explicit Handle call on 7 patterns x 8 methods with a symbolic parameter value",
 		boundsT: "programs of <= 3 calls, probe paths <= 4 bytes",
 		outside: "longer programs; other prefixes",
 		stubs:   stdStubs,
